@@ -7,7 +7,9 @@ faces, coincident agents and seam-crossing boxes are frequent."""
 from ECAgent.Core import Agent, Component, Model
 from ECAgent.Environments import PositionComponent
 
-from .worlds import RefWorld, gen_world, get_pos, make_world
+from simkit.stepgate import StepGate
+
+from .worlds import RefWorld, gen_extras, gen_world, get_pos, make_agents, make_world
 
 PROPERTY = "C12"
 QUICK_RUNS = 12000
@@ -18,11 +20,11 @@ RULE = ("continuous and grid worlds, wrapping and not; 0-8 agents on a coarse la
         "equal, one larger than the other}; non-trivial = >=3 agents, >=1 agent exactly on a face of the box and >=1 "
         "agent moved since placement; distinct = (kind, wrap, per query: population, answer size, on-face count, "
         "seam-crossing flag, leeway relation)"
-        "; also: continuous extents in (0,1), rejected duplicate placements between queries, wrap_env reassigned, worlds that are not model.environment, model lifecycle ops, agents carrying own components incl. a PositionComponent subclass with another location")
+        "; also: continuous extents in (0,1), rejected duplicate placements between queries, wrap_env reassigned, worlds that are not model.environment, model lifecycle ops, agents carrying own components incl. a PositionComponent subclass with another location, agents that are environments themselves, stretches of the history issued from inside a running timestep")
 COMPONENTS = {"real": ["ECAgent.Environments.SpaceWorld.get_agents_at", "add_agent / move / move_to / remove_agent"],
               "stub": ["agents are plain ECAgent agents created by the harness"]}
 PROBES = ["axis_leeway_larger", "general_leeway_larger", "negative_leeway", "empty_answer", "coincident_agents",
-          "query_outside_world", "seam_crossing_box", "agent_on_face", "wrap_world", "moved_since_placement", "rejected_duplicate_add", "model_lifecycle_op", "wrap_mode_switched", "agent_with_position_subclass_component"]
+          "query_outside_world", "seam_crossing_box", "agent_on_face", "wrap_world", "moved_since_placement", "rejected_duplicate_add", "model_lifecycle_op", "wrap_mode_switched", "agent_with_position_subclass_component", "agent_is_an_environment", "ops_from_inside_a_timestep"]
 TECHNIQUE = "deterministic simulation: positional queries inside seeded move/remove histories vs an exact geometric filter (seam-aware in wrapping worlds)"
 LEVEL_TEXT = ("Seeded search over placements, move histories and query boxes; every answer must equal, as an ordered id list, an "
               "exact geometric filter over the reference positions (distance around the seam in wrapping worlds); the query "
@@ -48,14 +50,6 @@ def gen_leeways(rng, ref):
     for _ in range(3):
         out.append(rng.choice([0, 0, g, g + step, max(g - step, 0), -step, 4 * step, step]))
     return out
-
-
-class Note(Component):
-    pass
-
-
-class HomePosition(PositionComponent):
-    """Another location kept by the agent (components are keyed by their exact class: this is not the agent's position)."""
 
 
 def generate(rng, tier):
@@ -85,12 +79,13 @@ def generate(rng, tier):
             ops.append({"op": "add", "k": rng.randrange(n), "p": [lattice(rng, ref, ax, 0) for ax in range(3)]})
             if rng.random() < 0.5:
                 ops.append({"op": "move", "k": ops[-1]["k"], "d": [rng.randint(-2, 2) * step for _ in range(3)]})
-    extras = []
-    if rng.random() < 0.3:      # agents that carry components of their own before they are placed - among them a SUBCLASS of
-        for k in range(n):      # PositionComponent holding some other location (a "home"), which is not the agent's position
-            if rng.random() < 0.5:
-                extras.append({"k": k, "what": rng.choice(["home", "home", "note", "note+home", "home+note"]),
-                               "h": [lattice(rng, ref, ax, 0) for ax in range(3)]})
+    if rng.random() < 0.25 and len(ops) >= 2:
+        # a stretch of the history is issued from inside a running timestep (by a System, as far as the package can tell)
+        i_ = rng.randint(0, len(ops) - 1)
+        j_ = rng.randint(i_ + 1, len(ops))
+        ops.insert(j_, {"op": "leave_step"})
+        ops.insert(i_, {"op": "enter_step"})
+    extras = gen_extras(rng, n, lambda ax: lattice(rng, ref, ax, 0))
     return {"world": world, "n": n, "ops": ops, "extras": extras}
 
 
@@ -99,24 +94,24 @@ def execute(sc, ctx):
     ref = RefWorld(sc["world"])
     env = make_world(m, sc["world"])
     n = int(sc["n"])
-    agents = [Agent(f"a{i}", m) for i in range(max(n, 1))]
-    for ex in sc.get("extras", []):
-        a_ = agents[ex["k"] % len(agents)]
-        for what in ex["what"].split("+"):
-            if what == "note" and Note not in a_.components:
-                a_.add_component(Note(a_, m))
-            elif what == "home" and HomePosition not in a_.components:
-                h = ref.real([int(c) for c in ex["h"]])
-                a_.add_component(HomePosition(a_, m, h[0], h[1], h[2]))
-                ctx.probe("agent_with_position_subclass_component")
+    agents = make_agents(m, n, sc.get("extras", []), ref, ctx)
     pos = {}      # joining order preserved (dict)
     moved = set()
     shape = []
     flags = {"face": False, "moved": False, "three": False}
     if ref.wrap:
         ctx.probe("wrap_world")
+    gate = StepGate(ctx)
     for op in sc["ops"]:
         kind = op["op"]
+        if kind == "enter_step":
+            gate.enter(m)
+            continue
+        if kind == "leave_step":
+            gate.leave()
+            continue
+        if kind == "lifecycle" and ctx.in_step and op.get("what") == "step":
+            continue          # stepping the model from inside its own timestep is re-entrant stepping: outside the statements
         if kind == "query":
             p = [int(c) for c in op["p"]]
             lw = [int(c) for c in op["l"]]
@@ -224,5 +219,6 @@ def execute(sc, ctx):
             ctx.expect_ok("remove", env.remove_agent, a.id)
             del pos[k]
         ctx.event(kind, k)
+    gate.leave()
     ctx.nontrivial = flags["face"] and flags["moved"] and flags["three"]
     ctx.sig = [sc["world"]["kind"], ref.wrap, shape[:40]]
